@@ -15,7 +15,7 @@ def steps_and_tags(results):
     return tags
 
 
-def evaluate(ctx, cases, prefix):
+def evaluate(ctx, cases, prefix, hardware=False):
     """Run every case on the real Executor, then the model (Exec) and the
     reference semantics (Sem) inside coqc on the same inputs.
     Returns (exec_mismatch, sem_mismatch, open_) lists of case indices, or None if
@@ -33,7 +33,7 @@ def evaluate(ctx, cases, prefix):
     files = {}
     for k in range(0, len(cases), SHARD):
         fn = f"cases_{prefix}_{k // SHARD}.v"
-        H.write_case_file(os.path.join(ctx.build, fn), coq_cases[k:k + SHARD])
+        H.write_case_file(os.path.join(ctx.build, fn), coq_cases[k:k + SHARD], hardware=hardware)
         files[fn] = k
     out = ([], [], [])
     ok = True
@@ -115,7 +115,8 @@ def generate_hardware(ctx, n_random, n_aimed, fuel):
     set_is_using_hardware(True): the listed semantics must hold in that configuration too"""
     cases = generate(ctx, n_random, n_aimed, fuel)
     for c in cases:
-        H.narrow_case(c)
+        if ctx.rng.random() < 0.6:
+            H.narrow_case(c)          # all immediates inside the width; the others keep 2^31 / 2^64-sized values
         c["hardware"] = True
         c["tag"] = "hw:" + c.get("tag", "")
     return cases
@@ -131,23 +132,31 @@ def run(ctx):
                 "exception class + line named by the message / blocked / step bound), pc, registers, arrays, shared "
                 "memory registers and arrays, unit module (physical qubit mapped to each virtual id) and the executor's set of physical qubits in use; after a fault the application continues with further subroutines (aimed stream: a random one, and for the allocation faults one qalloc per virtual id, some qfrees, one more qalloc).  non-trivial = at least 3 instructions and the reference "
                 "semantics defined on the whole case; distinct = distinct (cap, subroutines)")
-    ctx.props("C04")
-    # bridges from the private interpreters of C03/C05/C08/C10 to Sem / SemQ
-    ctx.props("C04_bridges")
-    # the end-to-end chain C05 -> C03 -> C04 (eval_prog ... SemQ.qrun on the assembled flattened lowering)
-    ok_gen, err_gen = ctx.gen("asm_tables.py", "Gen_Asm.v")   # C03's translator: the regenerated assembler parameters
-    ctx.gen_obligation("translator asm_tables.py understands the source", ok_gen, err_gen.strip()[-300:])
-    if ok_gen:
-        r_gen = ctx.coqc("Gen_Asm.v")
-        ctx.gen_obligation("Gen_Asm.v type-checks", r_gen.ok, r_gen.err[-300:])
-        ctx.trusted.append("gen/asm_tables.py (reads _REPLACE_CONSTANTS_EXCEPTION, REG_INDEX_BITS, RegisterName): the "
-                           "assembler parameters at which C05_end_to_end is stated")
-    ctx.props("C05_end_to_end")
+    # the three property files are compiled concurrently with the correspondence streams
+    from concurrent.futures import ThreadPoolExecutor
+
+    def e2e_job():
+        # the end-to-end chain C05 -> C03 -> C04 is stated at the REGENERATED assembler parameters and codec tables
+        for script, out in (("asm_tables.py", "Gen_Asm.v"), ("codec_tables.py", "Gen_Codec.v")):
+            ok_gen, err_gen = ctx.gen(script, out)
+            ctx.gen_obligation(f"translator {script} understands the source", ok_gen, err_gen.strip()[-300:])
+            if ok_gen:
+                r_gen = ctx.coqc(out)
+                ctx.gen_obligation(f"{out} type-checks", r_gen.ok, r_gen.err[-300:])
+        ctx.trusted.append("gen/asm_tables.py (reads _REPLACE_CONSTANTS_EXCEPTION, REG_INDEX_BITS, RegisterName) and "
+                           "gen/codec_tables.py (flavour tables, ctypes layouts): the assembler parameters and the codec "
+                           "at which C05_end_to_end / C05_end_to_end_wire are stated")
+        ctx.props("C05_end_to_end")
+
+    pool = ThreadPoolExecutor(max_workers=3)
+    prop_jobs = [pool.submit(ctx.props, "C04"),              # C04 proper (incl. the hardware configuration)
+                 pool.submit(ctx.props, "C04_bridges"),      # bridges from the private interpreters of C03/C05/C08/C10
+                 pool.submit(e2e_job)]
     quick = ctx.tier == "quick"
     if not quick:
         coqchk(ctx)
     fuel = 60
-    cases = generate(ctx, 2400 if quick else 60000, 18 if quick else 300, fuel)
+    cases = generate(ctx, 1800 if quick else 50000, 10 if quick else 250, fuel)
     res = evaluate(ctx, cases, "main")
     ctx.trusted.append("harness/exec_harness.py: builds real instruction objects (from_operands), runs the real "
                        "netqasm Executor (sub-classed only for the handler-call bound, _do_wait -> blocked, recording the "
@@ -162,8 +171,8 @@ def run(ctx):
                       "unsatisfied wait_* never completes (observed as 'blocked' through _do_wait)")
     ctx.assume.append("quantum instruction effects, EPR instructions, hardware-mode width checks (get_is_using_hardware) "
                       "and logging are outside this property's model; the physical qubit chosen by qalloc is not compared")
-    ctx.assume.append("hardware configuration pass: only cases whose values stay inside the 32-bit widths are compared "
-                      "(a case in which a value overflows -- OverflowError -- is discarded and counted)")
+    ctx.assume.append("hardware configuration pass: run with set_is_using_hardware(True) (reset in try/finally) and "
+                      "compared with the models under cfg_hardware (HwExec / HwSem: width checks, OverflowError = FOverflow)")
     ctx.assume.append("Python without -O: the executor's `assert x is not None` checks are active")
     stats, kinds = {}, {}
     if res is not None:
@@ -197,17 +206,17 @@ def run(ctx):
         for s in ctx.samples:
             s.pop("implementation", None)
     # hardware configuration (get_is_using_hardware() on): values that fit the widths behave as specified
-    hcases = generate_hardware(ctx, 500 if quick else 5000, 4 if quick else 30, fuel)
+    hcases = generate_hardware(ctx, 400 if quick else 5000, 4 if quick else 30, fuel)
     n_h = len(hcases)
-    hres = evaluate(ctx, hcases, "hardware")
+    hres = evaluate(ctx, hcases, "hardware", hardware=True)
     if hres is not None:
         hopen = set(hres[2])
         for i, c in enumerate(hcases):
             ctx.note_case(("hw", c["cap"], json.dumps(c["subs"])),
                           nontrivial=(sum(len(p) for p in c["subs"]) >= 3 and i not in hopen))
         for i in hres[1]:
-            ctx.violation("hardware configuration: reference semantics (Sem.run) and the real Executor disagree "
-                          "inside the defined domain on values that fit the hardware widths",
+            ctx.violation("hardware configuration: reference semantics (HwSem.hrun cfg_hardware) and the real Executor "
+                          "disagree inside the defined domain",
                           case_json(hcases[i]), key=None)
         if hres[0] and not hres[1]:
             ctx.broken.append(f"correspondence Exec.run_many vs real Executor (hardware configuration): "
@@ -217,7 +226,7 @@ def run(ctx):
         ctx.coverage["hardware_config_model_mismatches"] = len(hres[0])
         ctx.coverage["hardware_config_spec_mismatches"] = len(hres[1])
     # quantum stream: SemQ (target of the C05/C08/C10 bridges) vs the real Executor
-    qcases = [H.gen_qcase(ctx.rng, fuel=fuel) for _ in range(500 if quick else 10000)]
+    qcases = [H.gen_qcase(ctx.rng, fuel=fuel) for _ in range(400 if quick else 10000)]
     qres = evaluate_quantum(ctx, qcases, "quantum")
     if qres is not None:
         qopen = set(qres[1])
@@ -232,6 +241,9 @@ def run(ctx):
         ctx.coverage["quantum_stream_open"] = len(qres[1])
         ctx.coverage["quantum_stream_events"] = sum(len(c["results"][-1]["events"]) for c in qcases)
         ctx.samples.append(case_json(qcases[0]) | {"implementation": None})
+    for job in prop_jobs:
+        job.result()
+    pool.shutdown()
     if ctx.broken and not ctx.violations:
         search(ctx, fuel)
     ctx.finish()
@@ -243,7 +255,7 @@ def coqchk(ctx):
     import vlib
     mods = ["NQ.Proofs.ExecProofs", "NQ.Proofs.Bridge_Asm", "NQ.Proofs.Bridge_AsmChain", "NQ.Proofs.Bridge_Nv",
             "NQ.Proofs.Bridge_Sdk", "NQ.Proofs.Bridge_Epr", "NQ.Proofs.Bridge_AsmQ", "NQ.Proofs.Bridge_SdkAsm",
-            "NQ.Proofs.Bridge_E2E", "NQ.Proofs.Bridge_E2E_H1"]
+            "NQ.Proofs.Bridge_E2E", "NQ.Proofs.Bridge_E2E_H1", "NQ.Proofs.Bridge_E2E_Wire", "NQ.Proofs.HwProofs"]
     r = subprocess.run(["timeout", "2400", "coqchk", "-silent", "-o", "-Q", vlib.COQ, "NQ"] + mods,
                        capture_output=True, text=True)
     out = r.stdout + r.stderr
@@ -277,7 +289,7 @@ def replay(ctx, path):
         if qres is None or qres[0]:
             ctx.violation("SemQ and the real Executor disagree inside the domain", case_json(case))
         return ctx.finish()
-    res = evaluate(ctx, [case], "replay")
+    res = evaluate(ctx, [case], "replay", hardware=bool(case.get("hardware")))
     print("replay: implementation:", json.dumps([dict(out=r["out"], pc=r["pc"]) for r in case["results"]]))
     print("replay: (model mismatch, spec mismatch in domain, open) =", res)
     if res is None or res[1]:
